@@ -131,11 +131,13 @@ fn hostile_conn(r: &mut Rng, nonce: &mut u64, port: u16, span_ms: u64) -> ConnPl
         11 => {
             // a request whose typed parameters or body cannot be decoded (one
             // malformation from the C10 catalogue): malformed, so 4xx/5xx
-            use super::echo_gen::{gen_form, gen_narrow, gen_page, gen_typed};
-            let mut e = match r.below(4) {
+            use super::echo_gen::{gen_form, gen_narrow, gen_page, gen_raw, gen_typed, gen_wild};
+            let mut e = match r.below(7) {
                 0 => gen_form(r, my, 0, 0),
                 1 => gen_narrow(r, my, 0, 0),
                 2 => gen_page(r, my, 0, 0),
+                3 | 4 => gen_wild(r, my, 0, 0),
+                5 => gen_raw(r, my, 0, 0, false),
                 _ => gen_typed(r, my, 0, 0),
             };
             let why = super::c10::malform(r, &mut e);
